@@ -93,32 +93,41 @@ func c08Limit(k int) uint64 {
 	return l
 }
 
-// access history replayed from the path
+// access history replayed from the path (accesses to keys that do not exist do not count)
 type c08Hist struct {
-	last map[string]int
-	cnt  map[string]int
+	last   map[string]int
+	cnt    map[string]int
+	exists map[string]bool
 }
 
-func c08Replay(path []Action, outs func(i int) bool) c08Hist {
-	h := c08Hist{last: map[string]int{}, cnt: map[string]int{}}
+func c08Replay(path []Action) c08Hist {
+	h := c08Hist{last: map[string]int{}, cnt: map[string]int{}, exists: map[string]bool{}}
+	touch := func(k string, i int) {
+		if h.exists[k] {
+			h.last[k] = i + 1
+			h.cnt[k]++
+		}
+	}
 	for i, a := range path {
 		if a.K != "tcmd" {
 			continue
 		}
 		switch strings.ToUpper(a.A[0]) {
-		case "SET", "GET", "TOUCH":
-			h.last[a.A[1]] = i + 1
-			h.cnt[a.A[1]]++
+		case "SET":
+			h.exists[a.A[1]] = true
+			touch(a.A[1], i)
+		case "GET", "TOUCH":
+			touch(a.A[1], i)
 		case "MGET":
 			for _, k := range a.A[1:] {
-				h.last[k] = i + 1
-				h.cnt[k]++
+				touch(k, i)
 			}
 		case "DEL":
 			delete(h.last, a.A[1])
 			delete(h.cnt, a.A[1])
+			delete(h.exists, a.A[1])
 		case "FLUSHDB":
-			h = c08Hist{last: map[string]int{}, cnt: map[string]int{}}
+			h = c08Hist{last: map[string]int{}, cnt: map[string]int{}, exists: map[string]bool{}}
 		}
 	}
 	return h
@@ -209,8 +218,18 @@ func (c08Check) Run(u Unit, w *Worker) UnitResult {
 					minSz = s
 				}
 			}
-			if uint64(uPost+freed) < L && uint64(uPre) < L {
-				add("evicted-below-limit", fmt.Sprintf("keys %v were removed although usage never reached the limit (usage before eviction %d)", removed, uPost+freed))
+			// highest figure the eviction loop can have seen: usage before the command plus everything the command wrote
+			// (an overwrite is added in full without subtracting the old entry - C19)
+			var wrote int64
+			for k := range own {
+				if e, ok := post.Dump.Store[0][k]; ok && (name == "SET") {
+					wrote += e.Mem + 16 + int64(len(k))
+				} else if name == "SET" {
+					wrote = int64(L) // the written key itself was evicted: its size is not observable any more
+				}
+			}
+			if uint64(uPre+wrote) < L && uint64(uPost+freed) < L {
+				add("evicted-below-limit", fmt.Sprintf("keys %v were removed although usage never reached the limit (usage before the command %d, written %d)", removed, uPre, wrote))
 			}
 			if uint64(uPost) >= L {
 				// allowed only if no candidate is left
@@ -228,7 +247,19 @@ func (c08Check) Run(u Unit, w *Worker) UnitResult {
 				// (an overwrite double-counts the key in the reported figure - C19 - so the figure seen by the eviction loop is not reconstructible)
 				add("superfluous-victim", fmt.Sprintf("eviction removed %v: usage %d would already have been under the limit with one victim fewer", removed, uPost))
 			}
-			h := c08Replay(append(append([]Action{}, path...), act), nil)
+			// the order rules are judged only on histories without an earlier eviction (the replayed access history
+			// does not see evictions): the keys the replay believes to exist must be the keys that existed
+			hp := c08Replay(path)
+			orderJudgeable := len(hp.exists) == len(preA)
+			for k := range hp.exists {
+				if _, ok := preA[k]; !ok {
+					orderJudgeable = false
+				}
+			}
+			if !orderJudgeable {
+				res.Stats["order_checks_skipped_after_earlier_eviction"]++
+			}
+			h := c08Replay(append(append([]Action{}, path...), act))
 			for _, v := range removed {
 				if volatileOnly && preA[v].Exp == 0 && !(own[v] && name == "SET") {
 					add("non-volatile-victim", fmt.Sprintf("key %s has no deadline but was evicted", v))
@@ -238,6 +269,7 @@ func (c08Check) Run(u Unit, w *Worker) UnitResult {
 						continue
 					}
 					switch {
+					case !orderJudgeable:
 					case strings.HasSuffix(a.Policy, "lru"):
 						if h.last[v] > h.last[s] {
 							add("lru-order", fmt.Sprintf("victim %s was accessed at step %d, later than survivor %s (step %d)", v, h.last[v], s, h.last[s]))
